@@ -82,6 +82,36 @@ theorem centroid_maps_home (refs : List (List Rat)) (types : List Nat)
   exact chooseCell_unanimous types refs.length hlen.symm rows l (by omega) hall nAssign order ch
     hv hch
 
+/-- the same for any query row that is perfectly correlated, on every drawn
+    subset, with leaf `l`'s mean row and with no other leaf's — by
+    `perfect_iff_affine` e.g. any positive affine image `a·m + b` of the mean row
+    (a differently scaled or shifted copy of the centroid). -/
+theorem perfectly_correlated_maps_home (refs : List (List Rat)) (x : List Rat) (types : List Nat)
+    (subsets : List (List Nat)) (corrOf : Nat → Nat → Rat) (l : Nat)
+    (hl : l < refs.length) (hlen : types.length = refs.length)
+    (hsx : ∀ s ∈ subsets, ∀ i ∈ s, i < x.length)
+    (hsr : ∀ s ∈ subsets, ∀ m ∈ refs, ∀ i ∈ s, i < m.length)
+    (hguard : ∀ s ∈ subsets, corrSsq (pick s refs[l]) (pick s x) = 1 ∧
+      ∀ (j : Nat) (hj : j < refs.length), j ≠ l → corrSsq (pick s refs[j]) (pick s x) ≠ 1)
+    (hcorr : ∀ it, corrOf it l * |corrOf it l| = 1)
+    (nAssign : Nat) (order : List Nat) (ch : Choice) (tally : List Nat × List Rat)
+    (htally : tallyVotes refs x subsets corrOf = .ok tally)
+    (hv : ValidOrder (columns types tally.1 tally.2).1 order)
+    (hch : chooseCell types tally.1 tally.2 subsets.length nAssign order = .ok ch) :
+    ch.winner = types.getD l 0 ∧ ch.prob = 1 ∧ ch.avgCorr = 1 ∧
+      keepRunners ch.runners = ([], [], []) := by
+  have hiter : ∀ s ∈ subsets, tallyIter refs x s = .ok (l, 1) := fun s hs =>
+    tallyIter_home refs x s l hl (hsx s hs) (hsr s hs) (hguard s hs).1 (hguard s hs).2
+  obtain ⟨rows, hrows, hlenr, hall⟩ := tallyVotes_unanimous refs x subsets corrOf l hiter
+    (fun it => signed_root_one _ (hcorr it))
+  rw [hrows] at htally
+  cases htally
+  rw [← hlenr] at hch
+  exact chooseCell_unanimous types refs.length hlen.symm rows l (by omega) hall nAssign order ch
+    hv hch
+
+example : tallyIter [[1, 2, 4], [3, 1, 2]] [5, 7, 11] [0, 1, 2] = .ok (0, 1) := by decide +kernel
+
 example : ∃ tally, tallyVotes [[1, 2, 4], [3, 1, 2], [2, 2, 9]] [1, 2, 4] [[0, 1], [0, 2], [0, 1, 2]]
       (fun _ _ => 1) = .ok tally ∧
     (chooseCell [8, 8, 6] tally.1 tally.2 3 2 [1, 0]).toOption.map
